@@ -63,6 +63,7 @@ func VerifyFunc(P *Program, fn *ssa.Function, spec *FuncSpec, prop string) (ex *
 		st.assume(ex.typeInv(t, v, alloc0))
 		ex.ghostVals[g.Name] = &SV{V: v, T: t}
 	}
+	ex.addSpecAxioms(st, fr)
 	ex.entry = st.clone()
 	// requires
 	ctx := ex.specCtx(st, nil, fr)
@@ -703,7 +704,16 @@ func (ex *Exec) zeroElems(st *State, arr *Term, elem types.Type) {
 		key := ex.elemKey(elem, l.Path)
 		s := ArraySort(SRef, ArraySort(ex.env.IntS(), l.Sort))
 		h := ex.heapGet(st, key, s)
-		st.heap[key] = Store(h, arr, ConstArray(ArraySort(ex.env.IntS(), l.Sort), tm))
+		var ca *Term
+		if tm.IsLit() || tm.IsTrue() || tm.IsFalse() {
+			ca = ConstArray(ArraySort(ex.env.IntS(), l.Sort), tm)
+		} else {
+			// cvc5 accepts only values in (as const ..): use a fresh array with a pointwise axiom
+			ca = ex.fresh("zeros", ArraySort(ex.env.IntS(), l.Sort))
+			i := Sym(fmt.Sprintf("i!z%d", ex.nfresh), ex.env.IntS())
+			st.assume(Forall([]*Term{i}, Eq(Select(ca, i), tm), []*Term{Select(ca, i)}))
+		}
+		st.heap[key] = Store(h, arr, ca)
 	})
 }
 
@@ -985,4 +995,44 @@ func (ex *Exec) evalModifies(ctx *SpecCtx, cls []*Clause) []*modTarget {
 		out = append(out, ex.evalModTarget(ctx, c)...)
 	}
 	return out
+}
+
+// addSpecAxioms adds the user-declared axioms whose types resolve in the
+// loaded program (axioms about packages that are not loaded are irrelevant).
+func (ex *Exec) addSpecAxioms(st *State, fr *Frame) {
+	for _, ax := range ex.P.Specs.Axioms {
+		func() {
+			defer func() {
+				if r := recover(); r != nil {
+					if _, ok := r.(specErr); ok {
+						return
+					}
+					if _, ok := r.(oosErr); ok {
+						return
+					}
+					panic(r)
+				}
+			}()
+			sp := ex.P.SPkgs[ax.PkgPath]
+			if sp == nil {
+				return
+			}
+			c := ex.specCtx(st, nil, nil)
+			c.pkg = sp.Pkg
+			var bound []*Term
+			names := map[string]*SV{}
+			for i, pn := range ax.Params {
+				t := c.resolveType(ax.ParamTy[i])
+				b := c.newBound(pn, ex.env.scalarSort(t))
+				bound = append(bound, b)
+				names[pn] = &SV{V: scalar(b), T: t}
+			}
+			body := c.with(names).EvalBool(ax.Body.Expr)
+			if len(bound) > 0 {
+				body = Forall(bound, body)
+			}
+			ex.addAxiom(body)
+			ex.trusted["axiom "+shortKey(ax.PkgPath)+"."+ax.Name+": "+ax.Body.Src] = true
+		}()
+	}
 }
